@@ -300,8 +300,35 @@ def oracle_special(name, args):
     everything expanded.  None = no expectation (premise not plain / not of the documented shape / no match)."""
     kinds = [a[0] for a in args]
     vals = [a[1] for a in args]
+    if name == 'top_univgen':
+        return p_forall(0, ('imp', BOT, BOT))
+    if name in ('sym0_implies_sym1', 'sym1_implies_sym2', 'sym0_implies_sym2_proof'):
+        i, j = {'sym0_implies_sym1': (0, 1), 'sym1_implies_sym2': (1, 2), 'sym0_implies_sym2_proof': (0, 2)}[name]
+        return ('imp', ('sym', i), ('sym', j))
     if any(k == 'thunk' and v_ is None for k, v_ in args):
         return None
+    if name == 'universal_gen':
+        return p_forall(vals[1], vals[0])
+    if name == 'functional_subst':
+        # docstring:  exists x0 . p = x0     forall x1 . q   |-   q[p/x1]
+        h1, h2 = vals
+        try:
+            if h1[0] != 'ex' or h1[1] != 0:
+                return None
+            body = h1[2]
+            if not (body[0] == 'imp' and body[2] == BOT and body[1][0] == 'app' and body[1][1] == ('sym', DEFINEDNESS)
+                    and body[1][2][0] == 'imp' and body[1][2][2] == BOT):
+                return None
+            eq = un_equiv(body[1][2][1])
+            if not eq or eq[1] != ('ev', 0):
+                return None
+            pp = eq[0]
+            if not (h2[0] == 'imp' and h2[2] == BOT and h2[1][0] == 'ex' and h2[1][1] == 1
+                    and h2[1][2][0] == 'imp' and h2[1][2][2] == BOT):
+                return None
+            return esubst_doc(h2[1][2][1], 1, pp)
+        except (IndexError, TypeError):
+            return None
     if name == 'dynamic_inst':
         conc, delta = vals
         if not delta:
@@ -343,7 +370,37 @@ def oracle_special(name, args):
 
 
 SPECIAL = {'dynamic_inst', 'imp_trans_match1', 'imp_trans_match2', 'equiv_match_l', 'equiv_match_r',
-           'equiv_trans_match1', 'equiv_trans_match2'}
+           'equiv_trans_match1', 'equiv_trans_match2',
+           'universal_gen', 'top_univgen', 'functional_subst', 'sym0_implies_sym1', 'sym1_implies_sym2',
+           'sym0_implies_sym2_proof'}
+INSTANTIATING = {'dynamic_inst', 'imp_trans_match1', 'imp_trans_match2', 'equiv_match_l', 'equiv_match_r',
+                 'equiv_trans_match1', 'equiv_trans_match2'}
+DEFINEDNESS = 100        # id of Symbol('⌈_⌉') in the model (Gen/PropLib.index.json `symbols`)
+
+
+def p_forall(x, q):
+    return ('imp', ('ex', x, ('imp', q, BOT)), BOT)
+
+
+def p_equals(a, b):
+    """definedness.py: equals = floor(equiv) ; floor p = neg(ceil(neg p)) ; ceil p = App(definedness, p)"""
+    return ('imp', ('app', ('sym', DEFINEDNESS), ('imp', mk_equiv(a, b), BOT)), BOT)
+
+
+def esubst_doc(q, x, plug):
+    """q[plug/x] as the DOCUMENT means it, on the fragment the oracle needs: metavariables get a pending
+    substitution, closed variable-free-of-binders patterns are substituted textually; else None"""
+    k = q[0]
+    if k == 'mv':
+        return ('esub', q, x, plug)
+    if k == 'ev':
+        return plug if q[1] == x else q
+    if k in ('sv', 'sym'):
+        return q
+    if k in ('imp', 'app'):
+        a, b = esubst_doc(q[1], x, plug), esubst_doc(q[2], x, plug)
+        return None if a is None or b is None else (k, a, b)
+    return None
 
 
 # ------------------------------------------------------------------------------------------------
@@ -353,6 +410,7 @@ class Lib:
     def __init__(self, idx):
         self.idx = idx
         self.by_name = {m['name']: m for m in idx['methods']}
+        USES_GEN.update(m['name'] for m in idx['methods'] if m.get('uses_gen'))
         self.schemas = {}
         for m in idx['methods']:
             sch = m['schema']
@@ -408,6 +466,8 @@ class Gen:
             return self.match_call(name, level)
         if name == 'dynamic_inst':
             return self.tree_case(self.inst_tree(level, None, plain_only=(level > 0 or rng.random() < 0.5)))
+        if name in SPECIAL:
+            return self.tree_case(self.other_lib_tree(name))
         sch = lib.schemas.get(name)
         params = m['params']
         pats = [p for p in params if p['type'] == 'pat']
@@ -556,6 +616,26 @@ class Gen:
             base = {'ax': ('imp', gen_plain(rng, 1, 3), gen_plain(rng, 1, 3))}
         return {'call': 'dynamic_inst', 'args': [base, {'d': self.delta(plain_only)}]}
 
+    def other_lib_tree(self, name):
+        """proofs/substitution.py and proofs/small_theory.py"""
+        rng = self.rng
+        if name == 'universal_gen':
+            r = rng.random()
+            prem = self.lemma_tree() if r < 0.4 else {'ax': gen_pat(rng, 2, self.hist)}
+            self.note('premise:universal_gen')
+            return {'call': name, 'args': [prem, {'v': rng.randrange(0, 4)}]}
+        if name == 'functional_subst':
+            a1 = ('ex', 0, p_equals(('mv', 0, (0,), (), (), (), ()), ('ev', 0)))
+            a2 = p_forall(1, mv(1))
+            r = rng.random()
+            if r < 0.6:
+                self.note('premise:functional_subst-literal')
+                return {'call': name, 'args': [{'ax': a1}, {'ax': a2}]}
+            self.note('premise:functional_subst-other')
+            other = gen_pat(rng, 2, self.hist)
+            return {'call': name, 'args': [{'ax': a1 if r < 0.8 else other}, {'ax': other if r < 0.8 else a2}]}
+        return {'call': name, 'args': []}
+
     def match_call(self, name, level):
         """*_match* rule: the premise that gets instantiated is an assumption, a schematic lemma or a
         dynamic_inst result (so that the rule re-instantiates an instantiated lemma with overlapping ids)"""
@@ -613,7 +693,7 @@ def run_impl(cases, chunks=None):
     k = max(1, min(chunks, len(lines)))
     parts = [lines[i::k] for i in range(k)]
     with ThreadPoolExecutor(max_workers=k) as ex:
-        outs = list(ex.map(lambda part: C.run_py('proplib_runner.py', part, timeout=3000), parts))
+        outs = list(ex.map(lambda part: C.run_py('proplib_runner.py', part, timeout=3000, args=(os.path.join(GEN, 'PropLib.index.json'),)), parts))
     res = [None] * len(lines)
     for j, (part, (o, err)) in enumerate(zip(parts, outs)):
         if o and o[0].startswith('INIT'):
@@ -625,13 +705,21 @@ def run_impl(cases, chunks=None):
     return res
 
 
+USES_GEN = set()
+
+
+def tree_uses_gen(py):
+    return py['call'] in USES_GEN or any(tree_uses_gen(a) for a in py['args'] if 'call' in a)
+
+
 def judge(case, impl, model):
     """-> (agree: bool, oracle problem: (signature, description) | None)"""
     name = case['py']['call']
     fi, fm = impl.split(), (model or 'MISSING').split()
     agree = False
     if fi[0] == 'OK' and fm[0] == 'OK':
-        agree = (fi[1] == fm[1] and fi[2] == fm[2] and int(fi[3]) == int(fm[3]) and fm[4] == fm[1] and fm[5] == '1'
+        agree = (fi[1] == fm[1] and fi[2] == fm[2] and int(fi[3]) == int(fm[3]) and fm[4] == fm[1]
+                 and fm[5] == ('0' if tree_uses_gen(case['py']) else '1')
                  and fi[4] == fi[1] and fi[5] == fi[1] and fi[6] == '1')
     elif fi[0] == 'RAISE' and fm[0] == 'NONE':
         agree = True
@@ -703,6 +791,8 @@ def ml_arg(a, lib):
         return 'P' + hexp(expand(totuple(a['p'])))
     if 'ax' in a:
         return f'(A {hexp(expand(totuple(a["ax"])))})'
+    if 'v' in a:
+        return f'V{int(a["v"])}'
     if 'd' in a:
         return '(S ' + ' '.join(f'{int(k)}={hexp(expand(totuple(x)))}' for k, x in a['d']) + ')' if a['d'] else '(S)'
     return ml_of(a, lib)
@@ -728,6 +818,8 @@ def oracle_of(py, lib):
                 args.append(('pat', expand(totuple(a['p']))))
             elif p['type'] == 'subst':
                 args.append(('subst', [(int(k_), expand(totuple(x))) for k_, x in a['d']]))
+            elif p['type'] == 'evar':
+                args.append(('var', int(a['v'])))
             else:
                 args.append(('thunk', conc_of_arg(a, lib)))
         return oracle_special(py['call'], args)
@@ -800,7 +892,7 @@ def run(tier, seed):
         G = Gen(lib, rng, R.hist)
         budget = per_method if not proof_broken else per_method * 3 // 2
         for m in idx['methods']:
-            for k in range(budget * (4 if m['name'] in SPECIAL else 1)):
+            for k in range(budget * (4 if m['name'] in INSTANTIATING else 1)):
                 py, ml, exp, sub = G.call(m['name'], 0, 1 + (k % 3))
                 cases.append(dict(py=py, ml=ml, expect=exp, sub=sub, origin=f'gen:{m["name"]}:{k}'))
         impl = run_impl(cases)
